@@ -3,7 +3,7 @@ from ..engine import Leg, Prop
 from .. import structh as H
 
 W_LINKS = {"NV": 3, "NU": 0.5, "NE": 4, "SV1": 4, "SV2": 4, "A2L": 3, "RFL": 3, "LAV": 3, "LUF": 3, "LFT": 2, "UNL": 2,
-           "CACHE": 0.3}
+           "CACHE": 0.3, "CLONE": 0.7}
 SEED_OPS = [["NV", False, [], []], ["NV", False, [], []]]
 
 
@@ -53,6 +53,9 @@ class LinkHistory(Leg):
     def oracle(self, case, obs):
         if obs is None:
             return []
+        m = H.clone_violations(case["ops"], obs)
+        if m:
+            return m
         for i, r in enumerate(obs):
             m = assoc_violations(r["snap"])
             if m:
